@@ -208,9 +208,54 @@ func H_arr_map() {
 		}
 		vAssert(good, "C16.typed.value")
 		vAssert(vOr(ok, v == 0), "C16.typed.zero")
+	case 6:
+		// struct elements whose Go layout has padding (8 bytes in memory, 6 encoded)
+		elts := make([]vPadElt, n)
+		for i := range elts {
+			elts[i] = vPadElt{A: vI32("ea"), B: vU16("eb")}
+		}
+		g, gerr := New(idx, elts)
+		vAssert(gerr == nil && g != nil, "C16.build-ok")
+		if gerr != nil {
+			vAssume(false)
+		}
+		if loaded == 1 {
+			bs, e1 := proto.Marshal(g)
+			g2, e0 := NewEmpty(vPadElt{})
+			vAssert(e0 == nil && g2 != nil, "C16.newempty-ok")
+			if e0 != nil {
+				vAssume(false)
+			}
+			e2 := proto.Unmarshal(bs, g2)
+			vAssert(e1 == nil && e2 == nil, "C16.roundtrip-ok")
+			g = g2
+		}
+		gv, gok := g.Get(probe)
+		vAssert(gok == has, "C16.generic.found")
+		if gok {
+			e := gv.(vPadElt)
+			good := true
+			for i := 0; i < n; i++ {
+				good = vAnd(good, vImplies(idx[i] == probe, vAnd(e.A == elts[i].A, e.B == elts[i].B)))
+			}
+			vAssert(good, "C16.generic.value")
+		} else {
+			vAssert(gv == nil, "C16.generic.nil")
+		}
+		rb, rok := g.GetBytes(probe, 6)
+		vAssert(rok == has, "C16.raw.found")
+		if rok && gok {
+			e := gv.(vPadElt)
+			vAssert(len(rb) == 6 && int32(uint32(rb[0])|uint32(rb[1])<<8|uint32(rb[2])<<16|uint32(rb[3])<<24) == e.A && uint16(rb[4])|uint16(rb[5])<<8 == e.B, "C16.raw.value")
+		}
 	}
 	vObserve("has", has)
 	vReach("end")
+}
+
+type vPadElt struct {
+	A int32
+	B uint16
 }
 
 // invalid input: non-ascending indexes / mismatched lengths are rejected and build nothing.
